@@ -184,10 +184,10 @@ func c19Sequential(c c19Cfg, rng *RNG, nops int, o *Out) error {
 	pE := 50 + rng.Intn(45) // percentage of emits
 	var blocked []chan struct{} // block strategy: senders blocked on the full channel (FIFO wake-up not assumed: at most one)
 	blockedP := -1
-	for i := 0; i < nops; i++ {
+	for i := 0; i < nops || blockedP >= 0; i++ {
 		st := w.s.GetStats()
 		full := st[stream.DataChanLen] >= st[stream.DataChanCap]
-		if rng.Intn(100) < pE && blockedP < 0 {
+		if i < nops && rng.Intn(100) < pE && blockedP < 0 {
 			p := rng.Intn(P)
 			if c.strat == 1 && full && inSink {
 				// would block for ever: start it asynchronously and observe that it is blocked
